@@ -23,12 +23,14 @@ type replayFile struct {
 	Case     struct {
 		Mode   string     `json:"mode"`
 		Seq    *SeqCase   `json:"seq,omitempty"`
+		Table  *TblCase   `json:"table,omitempty"`
 		Stress *StressCfg `json:"stress,omitempty"`
 	} `json:"case"`
 }
 
 func main() {
 	a := vlib.ParseArgs()
+	outDir = a.Out
 	res := vlib.NewResult("C17", a.Out, "sequential: random programs of Get/Release/Delete/Evict/EvictNS/EvictAll/SetCapacity/Close over 2-64 keys x 1-3 namespaces, capacity 0..50 (nil cacher 1/8), sizes around the capacity, plus programs crossing the table's growth threshold and shrinking again; non-trivial = the program had both hits and misses and constructed more than one value. stress: 2-32 goroutines over overlapping keys; non-trivial = at least one value was finalised while another goroutine's Get was in flight on the same key set (constructions > keys)")
 	defer res.Write()
 	t0 := time.Now()
@@ -100,6 +102,12 @@ func main() {
 	}
 	res.Count("k_cases_big_resize", len(bigs))
 
+	// ---- the node table against Conc/CacheTable.v: (K) cases of their own (one big program per file) + (P)
+	if a.Extra != "search" {
+		tableK(res, root.Fork(), a.Thorough())
+	}
+	tableP(res, root.Fork(), a.Thorough(), a.Extra == "search")
+
 	// ---- (P) sequential volume, in parallel
 	workers := runtime.NumCPU()
 	if workers > 16 {
@@ -145,6 +153,62 @@ func main() {
 	}
 	if res.NViolations() == 0 {
 		targetedRaces(res, raceBudget, a.Thorough())
+	}
+}
+
+// tableK: the (K) cases of the node table.  Written as files of their own (WriteCases names its files
+// cases_<prop>_<i>.v from 0, so these use the indexes after the 16 shards of the sequential cases).
+func tableK(res *vlib.Result, r *vlib.RNG, thorough bool) {
+	var cases []string
+	add := func(tc TblCase) {
+		o := runTable(tc, true)
+		recordTable(res, &tc, o)
+		if o.kcase != "" {
+			cases = append(cases, o.kcase)
+		}
+	}
+	add(genTable(r, "ovf", 2))
+	add(genTable(r, "count", 1))
+	var small []string
+	for i := 0; i < 24; i++ {
+		tc := genTable(r, "mix", 1)
+		o := runTable(tc, true)
+		recordTable(res, &tc, o)
+		small = append(small, o.kcase)
+	}
+	small = append(small, murmurCases(r, 400))
+	if thorough {
+		add(genTable(r, "ovf", 3))
+		add(genTable(r, "count", 2))
+		add(genTable(r, "ovf", 1))
+	}
+	files := append([][]string{small}, func() (l [][]string) {
+		for _, c := range cases {
+			l = append(l, []string{c})
+		}
+		return
+	}()...)
+	writeExtraCases(res, "From GL Require Import Conc.Cache Conc.CacheTable Corr.C17Run.", "c17case", "mismatches", files, 16)
+	res.Count("k_cases_table", len(cases)+len(small)-1)
+	res.Count("k_cases_murmur32_values", 400+2*12*6)
+}
+
+// tableP: the table invariants on the implementation at volume (no Coq cases).
+func tableP(res *vlib.Result, r *vlib.RNG, thorough, search bool) {
+	n, nbig := 60, 2
+	if thorough {
+		n, nbig = 3000, 40
+	}
+	if search {
+		n, nbig = 400, 6
+	}
+	for i := 0; i < nbig && res.NViolations() < 5; i++ {
+		tc := genTable(r, []string{"ovf", "count"}[i%2], 1+i%2)
+		recordTable(res, &tc, runTable(tc, false))
+	}
+	for i := 0; i < n && res.NViolations() < 5; i++ {
+		tc := genTable(r, "mix", 1)
+		recordTable(res, &tc, runTable(tc, false))
 	}
 }
 
@@ -240,6 +304,14 @@ func replay(a vlib.Args, res *vlib.Result) {
 		o := runSeq(*rf.Case.Seq, 1, true)
 		record(res, "seq", rf.Case.Seq, nil, o)
 		res.WriteCases("From GL Require Import Conc.Cache Corr.C17Run.", "c17case", "mismatches", []string{o.kcase}, 1)
+	case rf.Case.Table != nil:
+		for i := 0; i < 3 && res.NViolations() == 0; i++ {
+			o := runTable(*rf.Case.Table, i == 0)
+			recordTable(res, rf.Case.Table, o)
+			if i == 0 && o.kcase != "" {
+				res.WriteCases("From GL Require Import Conc.Cache Conc.CacheTable Corr.C17Run.", "c17case", "mismatches", []string{o.kcase}, 1)
+			}
+		}
 	case rf.Case.Stress != nil:
 		// a schedule cannot be replayed exactly: re-run the same configuration a number of times
 		for i := 0; i < 30 && res.NViolations() == 0; i++ {
